@@ -3,6 +3,7 @@
 package client
 
 import (
+	"errors"
 	"github.com/aws/aws-sdk-go/aws"
 	"github.com/aws/aws-sdk-go/service/dynamodb"
 	"github.com/truora/minidyn/internal/nd"
@@ -91,8 +92,33 @@ func VerifC14IsolationV1() {
 		_, err := c.PutItem(&dynamodb.PutItemInput{TableName: aws.String(vTbl), Item: it})
 		nd.Assert(err == nil, "C14v1-put-noerr")
 	}
-	scenario := nd.Choice("scenario", 7)
+	scenario := nd.Choice("scenario", 8)
 	switch scenario {
+	case 7: // whatever a refused conditional write hands back (the error may carry the stored item) is the caller's
+		put(vItem{"p": vS("k"), "a": vToAV(v)})
+		var err error
+		switch nd.Choice("refused-write", 3) {
+		case 0:
+			_, err = c.PutItem(&dynamodb.PutItemInput{TableName: aws.String(vTbl), Item: vItem{"p": vS("k"), "a": vS("other")},
+				ConditionExpression: aws.String("attribute_not_exists(p)"), ReturnValues: aws.String("ALL_OLD")})
+		case 1:
+			_, err = c.UpdateItem(&dynamodb.UpdateItemInput{TableName: aws.String(vTbl), Key: key(), UpdateExpression: aws.String("SET z = :z"),
+				ConditionExpression: aws.String("attribute_not_exists(p)"), ExpressionAttributeValues: vItem{":z": vS("z")}, ReturnValues: aws.String("ALL_OLD")})
+		case 2:
+			_, err = c.DeleteItem(&dynamodb.DeleteItemInput{TableName: aws.String(vTbl), Key: key(),
+				ConditionExpression: aws.String("attribute_not_exists(p)"), ReturnValues: aws.String("ALL_OLD")})
+		}
+		var ccf *ctypes.ConditionalCheckFailedException
+		nd.Assert(err != nil, "C14v1-conditional-failure")
+		if errors.As(err, &ccf) && ccf.Item != nil {
+			nd.Reach("failure-carries-item")
+			for _, it := range ccf.Item {
+				vPokeCore(it)
+			}
+			ccf.Item["poked"] = &ctypes.Item{S: aws.String("poked")}
+			delete(ccf.Item, "a")
+		}
+		read("C14v1-failure-item-not-shared")
 	case 0:
 		in := vItem{"p": vS("k"), "a": vToAV(v)}
 		put(in)
@@ -192,4 +218,53 @@ func VerifC14KeyInputsV1() {
 		nd.Assert(s.Items[0]["p"] != nil && s.Items[0]["p"].S != nil && *s.Items[0]["p"].S == "k", "C14v1-stored-key-not-shared")
 	}
 	nd.Reach("end")
+}
+
+// vPokeCore overwrites every mutable location reachable from a core attribute value.
+func vPokeCore(it *ctypes.Item) {
+	if it == nil {
+		return
+	}
+	if it.S != nil {
+		*it.S += "!"
+	}
+	if it.N != nil {
+		*it.N = "999"
+	}
+	for i := range it.B {
+		it.B[i] ^= 0xff
+	}
+	if it.BOOL != nil {
+		*it.BOOL = !*it.BOOL
+	}
+	if it.NULL != nil {
+		*it.NULL = !*it.NULL
+	}
+	for _, e := range it.L {
+		vPokeCore(e)
+	}
+	for i := range it.L {
+		it.L[i] = &ctypes.Item{S: aws.String("poked")}
+	}
+	for _, e := range it.M {
+		vPokeCore(e)
+	}
+	if it.M != nil {
+		it.M["poked"] = &ctypes.Item{S: aws.String("poked")}
+	}
+	for i := range it.SS {
+		if it.SS[i] != nil {
+			*it.SS[i] += "!"
+		}
+	}
+	for i := range it.NS {
+		if it.NS[i] != nil {
+			*it.NS[i] = "999"
+		}
+	}
+	for i := range it.BS {
+		for j := range it.BS[i] {
+			it.BS[i][j] ^= 0xff
+		}
+	}
 }
